@@ -129,6 +129,7 @@ def run(chk):
     fs_invariant(chk, src, PE(src))
     _roundtrip(chk, src)
     _roundtrip_archive(chk, src)
+    _header_file(chk, src)
     # ---- (3) arrays, compression, buffer handling, (2b) lookup / sync: decided semantically by the round trips below --------------
     # ---- (4) evolution points ---------------------------------------------------------------------------------------------------------------
     ekoc = src.cls("eko.io.struct.EKO")
@@ -277,6 +278,19 @@ def _roundtrip(chk, src):
                    f"the same directory does not return the last stored operator and error under the same evolution point ({msg})",
                    where=finv.where, instance=inst, how="PE of writer and reader on a model file system")
     chk.floor("round trips on the model file system", n_rt, 18)
+
+
+def _header_file(chk, src):
+    """what Inventory.__setitem__ writes for a header: the fields themselves (shared evaluation with C54's writer table)"""
+    from .c54 import _python_writer_table
+
+    fset = src.func(f"{INV}.Inventory.__setitem__")
+    hd = _python_writer_table(src).get("header")
+    chk.decide(isinstance(hd, tuple) and isinstance(hd[1], dict) and hd[1].get("scale") == Fraction(9) and hd[1].get("nf") == 4 and set(hd[1]) == {"scale", "nf"},
+               "header-file-holds-the-header-fields", fset.qname,
+               f"the header (scale = 9, nf = 4) is written as {hd[1] if isinstance(hd, tuple) else hd}; required: the field values themselves - any "
+               f"transformation on the way to the file (a square root squared again on reading, say) is not exact in floating point: the point read "
+               f"back is then another one, or its operator file is not found", where=fset.where, how="PE on a model file system")
 
 
 def _roundtrip_archive(chk, src):
